@@ -34,13 +34,13 @@ Definition same_b (c : c15case) : bool :=
 Definition must_ok (tc : tcase) (i : nat) : bool :=
   let t := tc_in tc in
   let out := tc_out tc in
-  let j := (List.length (t_ms t) - 1)%nat in
   memn i out ||
-  match t_ms t, feat_of t i with
-  | [], _ => true                                   (* no measure requested for this dtype *)
+  match last_assoc (t_ms t), feat_of t i with
+  | None, _ => true                                 (* no association measure requested for this dtype *)
   | _, None => false
-  | _, Some f =>
+  | Some j, Some f =>
       negb (base_ok (t_n t) (t_tnan t) (t_tmode t) f)   (* fails thresh_nan / thresh_mode *)
+      || gate_fails t f                                 (* screened out by an outlier gate *)
       || match nth j (f_spec f) None with
          | Some s =>
              let better := filter (fun g => match spec_at t g j with Some sg => s <=? sg | None => false end) out in
@@ -62,9 +62,9 @@ Definition C15_b (c : c15case) : bool := (same_b c || ties15 c) && musts_ok c.
 (* 0 both runs agree with the model & same selection | 1 a run disagrees with the model |
    2 the selections differ / the copy of the target is not returned | 4 equal up to exact ties *)
 Definition verdict15 (c : c15case) : nat :=
-  if negb (C15_b c) then 2%nat
-  else if agree (ca c) && agree (cb c) then (if same_b c then 0%nat else 4%nat)
-  else if ties15 c then 4%nat
+  if agree (ca c) && agree (cb c) then
+    (if negb (C15_b c) then 2%nat else if same_b c then 0%nat else 4%nat)
+  else if ties15 c then (if C15_b c then 4%nat else 2%nat)
   else 1%nat.
 
 (* ---- rank statistics (specification functions) ------------------------------------------- *)
